@@ -97,6 +97,8 @@ impl Searcher {
                 best_move = result.best_move;
 
                 self.cache_search_result(board, &result, current_depth);
+                #[cfg(flounder_verif)]
+                verif::ev(verif::Ev::Kept { depth: current_depth, score: result.score, mv: result.best_move });
                 self.timer
                     .print_info(current_depth, result.score, result.best_move);
             }
@@ -107,6 +109,9 @@ impl Searcher {
         if best_move.is_none() {
             best_move = self.move_generator.generate_moves(board).first().copied();
         }
+
+        #[cfg(flounder_verif)]
+        verif::ev(verif::Ev::Result { score: best_score, mv: best_move });
 
         (best_score, best_move)
     }
@@ -158,8 +163,12 @@ impl Searcher {
     ) -> SearchResult {
         self.timer.increment_nodes();
         let original_alpha = alpha;
+        #[cfg(flounder_verif)]
+        verif::ev(verif::Ev::Neg { board: *board, depth, ply, alpha, beta, nodes: self.timer.nodes() });
 
         if ply > 0 && self.is_draw_by_repetition(board) {
+            #[cfg(flounder_verif)]
+            verif::ev(verif::Ev::NegRet { kind: "rep", score: 0, mv: None, bound: None });
             return SearchResult::new(0, None);
         }
 
@@ -167,12 +176,16 @@ impl Searcher {
         if let Some(cached_result) =
             self.probe_transposition_table(board, depth, alpha, beta, &mut context)
         {
+            #[cfg(flounder_verif)]
+            verif::ev(verif::Ev::NegRet { kind: "tt", score: cached_result.score, mv: cached_result.best_move, bound: None });
             return cached_result;
         }
 
         // Quiescence search checks, captures, and promotions
         if depth == 0 {
             let score = self.search_until_quiet(board, alpha, beta);
+            #[cfg(flounder_verif)]
+            verif::ev(verif::Ev::NegRet { kind: "q", score, mv: None, bound: None });
             return SearchResult::new(score, None);
         }
 
@@ -181,10 +194,14 @@ impl Searcher {
 
         // Check for checkmate/stalemate
         if moves.is_empty() {
+            #[cfg(flounder_verif)]
+            verif::ev(verif::Ev::NegRet { kind: "term", score: self.handle_terminal_position(board, depth).score, mv: None, bound: None });
             return self.handle_terminal_position(board, depth);
         }
 
         self.order_moves(board, &mut moves, context.tt_best_move, ply);
+        #[cfg(flounder_verif)]
+        verif::ev(verif::Ev::Order { moves: moves.clone() });
 
         let mut best_result = SearchResult::worst(moves[0]);
 
@@ -225,11 +242,15 @@ impl Searcher {
         // A node abandoned because the time budget ran out has not examined all of its moves:
         // its partial result must not be cached as if it were a completed search
         if self.timer.should_stop() {
+            #[cfg(flounder_verif)]
+            verif::ev(verif::Ev::NegRet { kind: "abort", score: best_result.score, mv: best_result.best_move, bound: None });
             return best_result;
         }
 
         let bound = self.determine_bound(best_result.score, original_alpha, beta);
         self.store_in_transposition_table(board, &best_result, depth, bound);
+        #[cfg(flounder_verif)]
+        verif::ev(verif::Ev::NegRet { kind: "done", score: best_result.score, mv: best_result.best_move, bound: Some(bound) });
 
         best_result
     }
@@ -249,14 +270,20 @@ impl Searcher {
         };
 
         self.order_captures(&mut moves, board);
+        #[cfg(flounder_verif)]
+        verif::ev(verif::Ev::Quiet { board: *board, alpha, beta, moves: moves.clone(), nodes: self.timer.nodes() });
 
         // Checkmate detection
         if moves.is_empty() && currently_in_check {
+            #[cfg(flounder_verif)]
+            verif::ev(verif::Ev::QuietRet { score: -CHECKMATE_SCORE });
             return -CHECKMATE_SCORE;
         }
 
         let stand_pat = self.evaluator.evaluate(board);
         if stand_pat >= beta {
+            #[cfg(flounder_verif)]
+            verif::ev(verif::Ev::QuietRet { score: beta });
             return beta;
         }
 
@@ -271,11 +298,16 @@ impl Searcher {
             let score = -self.search_until_quiet(&next_position, -beta, -alpha);
 
             if score >= beta {
+                #[cfg(flounder_verif)]
+                verif::ev(verif::Ev::QuietRet { score: beta });
                 return beta;
             }
 
             alpha = max(alpha, score);
         }
+
+        #[cfg(flounder_verif)]
+        verif::ev(verif::Ev::QuietRet { score: alpha });
 
         alpha
     }
@@ -445,6 +477,36 @@ pub mod verif {
     use crate::transposition::Bounds;
     use std::cell::Cell;
     use std::cmp::{max, min};
+
+    /// Step-level events of the search (one per critical section; recorded only while a sink is installed)
+    #[derive(Clone)]
+    pub enum Ev {
+        Neg { board: crate::board::Board, depth: u8, ply: u8, alpha: i32, beta: i32, nodes: u64 },
+        Order { moves: Vec<crate::moves::Move> },
+        NegRet { kind: &'static str, score: i32, mv: Option<crate::moves::Move>, bound: Option<Bounds> },
+        Quiet { board: crate::board::Board, alpha: i32, beta: i32, moves: Vec<crate::moves::Move>, nodes: u64 },
+        QuietRet { score: i32 },
+        Kept { depth: u8, score: i32, mv: Option<crate::moves::Move> },
+        Result { score: i32, mv: Option<crate::moves::Move> },
+    }
+
+    thread_local! {
+        static SINK: std::cell::RefCell<Option<Vec<(u64, Ev)>>> = std::cell::RefCell::new(None);
+    }
+
+    /// Install (Some) or remove (None) the event sink; returns what was recorded so far.
+    pub fn set_sink(on: bool) -> Vec<(u64, Ev)> {
+        SINK.with(|s| s.replace(if on { Some(Vec::new()) } else { None })).unwrap_or_default()
+    }
+
+    /// Record one event together with the number of should_stop() polls made so far in this search.
+    pub fn ev(e: Ev) {
+        SINK.with(|s| {
+            if let Some(v) = s.borrow_mut().as_mut() {
+                v.push((crate::timer::verif::poll_stats().0, e));
+            }
+        });
+    }
 
     thread_local! {
         /// table probes that answered a node from an entry searched DEEPER than the node required
